@@ -143,7 +143,14 @@ class Evaluator:
             vals = [self.ev(x) for x in e.elts]
             return tuple(vals) if isinstance(e, ast.Tuple) else (list(vals) if isinstance(e, ast.List) else set(vals))
         if isinstance(e, ast.Dict):
-            return {self.ev(k): self.ev(v) for k, v in zip(e.keys, e.values)}
+            out_d = {}
+            for k, v in zip(e.keys, e.values):
+                try:
+                    out_d[self.ev(k)] = self.ev(v)
+                except Unknown:
+                    # a registry whose values are foreign objects (e.g. hash constructors): membership / iteration over the keys still works
+                    out_d[self.ev(k)] = _Opaque(unparse(v))
+            return out_d
         if isinstance(e, ast.Subscript):
             base = self.ev(e.value)
             if isinstance(e.slice, ast.Slice):
@@ -434,6 +441,16 @@ def is_generator(node: ast.AST) -> bool:
             continue
         stack.extend(ast.iter_child_nodes(n))
     return False
+
+
+class _Opaque:
+    """Stand-in for a value the interpreter cannot build; any use other than passing it around is Unknown."""
+
+    def __init__(self, text: str) -> None:
+        self.text = text
+
+    def __repr__(self) -> str:
+        return f"<opaque {self.text}>"
 
 
 class _Closure:
